@@ -115,6 +115,10 @@ Proppatch(c, ins) ==
          THEN resp' = "refused" /\ UNCHANGED <<st, hist>>      \* per-property refusal
          ELSE Apply(ProppatchOutcome(st, [c |-> c, ins |-> done]), c)
 
+Retype(c, k) ==
+    /\ rq' = [op |-> "Retype", c |-> c, kind |-> k]
+    /\ Apply(RetypeOutcome(st, rq'), c)
+
 Restart(defaults) ==
     /\ rq' = [op |-> "Restart", defaults |-> defaults]
     /\ resp' = "ok"
@@ -132,6 +136,7 @@ Next ==
     \/ \E c \in Coll, k \in Kinds : Mk(c, k)
     \/ \E c \in Coll, im \in CollConds : DeleteColl(c, im)
     \/ \E c \in Coll, ins \in InstrSeqs : Proppatch(c, ins)
+    \/ \E c \in Coll, k \in Kinds \cup {""} : Retype(c, k)
     \/ \E d \in BOOLEAN : Restart(d)
 
 Spec == Init /\ [][Next]_vars
